@@ -8,6 +8,7 @@ import (
 	"runtime/debug"
 	"strconv"
 	"strings"
+	"time"
 
 	"github.com/lindb/lindb/internal/vevid"
 	"github.com/lindb/lindb/internal/vsched"
@@ -439,7 +440,14 @@ func runConc(f *vevid.Flags, rep *vevid.Report, r replay) {
 		if v := os.Getenv("C06_SCEN"); v != "" && v != sc.Name {
 			continue
 		}
-		e := &vsched.Explorer{Bound: bound, Horizon: 200000, Body: cbody(sc), Shard: f.Shard, Shards: f.Shards, Deadline: f.Deadline}
+		// the time left is split evenly over the scenarios still to run, so a large one does not starve the rest
+		dl := f.Deadline
+		if !dl.IsZero() {
+			if left := time.Until(dl); left > 0 {
+				dl = time.Now().Add(left / time.Duration(len(cscenarios)-si))
+			}
+		}
+		e := &vsched.Explorer{Bound: bound, Horizon: 200000, Body: cbody(sc), Shard: f.Shard, Shards: f.Shards, Deadline: dl}
 		e.Check = func(x *vsched.Result) {
 			cfinish(rep, sc, x)
 			if len(x.Points) > 0 {
